@@ -53,8 +53,13 @@ def gen_doc(rng):
         return "None", f("")
 
     def composite():
-        k = rng.choice(["table", "social", "navbar", "accordion"])
+        k = rng.choice(["table", "social", "navbar", "accordion", "carousel"])
         tags.add("mj-" + k)
+        if k == "carousel":
+            n = rng.choice([1, 2, 3, 4])
+            thumbs = rng.random() < 0.6
+            return ("KCarousel %s %d" % ("true" if thumbs else "false", n - 1),
+                    "<mj-carousel%s>%s</mj-carousel>" % ("" if thumbs else ' thumbnails="hidden"', '<mj-carousel-image src="https://x/a.png"/>' * n))
         if k == "table":
             t = stext()
             return ('KTable [o "tr"; o "td"; tx (lit "%s"); c "td"; c "tr"]' % t), "<mj-table><tr><td>%s</td></tr></mj-table>" % t
